@@ -293,6 +293,9 @@ def run_posix(desc):
              ('[a^]', set('a^'), False), ('[a!]', set('a!'), False), ('[]]', set(']'), False), ('[!]]', set(']'), True), ('[a-]', set('a-'), False),
              ('[-]', set('-'), False), ('[!-]', set('-'), True), ('[\\\\]', set('\\'), False), ('[a\\]b]', set('a]b'), False),
              ('[--]', set('-'), False), ('[0-9-a]', rng('0', '9') | set('-a'), False), ('[]-]]', None, None),
+             # a caret (or `!`) that follows a dropped reversed range is a member, not a negation
+             ('[z-a^b]', set('^b'), False), ('[z-a^]', set('^'), False), ('[!z-a^b]', set('^b'), True), ('[b-a^-c]', rng('^', 'c'), False),
+             ('[z-a!b]', set('!b'), False), ('[z-ay-b^x]', set('^x'), False), ('[b-a]', set(), False), ('[!b-a]', set(), True),
              # an escaped backslash as a range endpoint
              ('[A-\\\\]', rng('A', '\\'), False), ('[!A-\\\\]', rng('A', '\\'), True), ('[0-\\\\]', rng('0', '\\'), False),
              ('[\\\\-a]', rng('\\', 'a'), False), ('[\\\\-\\]]', rng('\\', ']'), False), ('[%-\\\\x]', rng('%', '\\') | set('x'), False),
